@@ -32,10 +32,16 @@ func verifC20VPPoints(n, dim int, q Point) ([]Comparable, []Point) {
 
 // verifC20VPSrc is a rand.Source whose outputs are symbolic inputs, so that the
 // vantage choices are arbitrary in the engine AND reproducible in a native replay.
-type verifC20VPSrc struct{ k int }
+//
+// rand.Rand.IntN(n) rejects and redraws with probability < n/2^32 in a loop that
+// terminates only with probability one; streams that need more than max draws
+// in one New call are pruned (max = number of vantage choices + 1: every
+// choice sequence is still reachable, with at most one rejection).
+type verifC20VPSrc struct{ k, max int }
 
 func (s *verifC20VPSrc) Uint64() uint64 {
 	s.k++
+	verifAssume(s.k <= s.max)
 	return verifUint64("rnd" + string(rune('0'+s.k)))
 }
 
@@ -69,7 +75,9 @@ func verifC20VPSetup() (n, dim int, pts []Point, q Point, t *Tree) {
 		q[d] = verifFloat("q" + string(rune('x'+d)))
 	}
 	cs, pts := verifC20VPPoints(n, dim, q)
-	t, err := New(cs, verifParam("vpeffort", 1), &verifC20VPSrc{})
+	// src == nil: the package-level rand.IntN, which the engine models as an
+	// arbitrary value of its contract (cheaper than the symbolic Source below).
+	t, err := New(cs, verifParam("vpeffort", 1), nil)
 	verifAssert(err == nil, "New succeeds for finite points")
 	verifAssert(t != nil, "New returns a tree")
 	return n, dim, pts, q, t
@@ -160,7 +168,7 @@ func VerifC20_VPDo() {
 	n := verifChoose("n", 1, verifParam("vpn", 3))
 	dim := verifChoose("dim", 1, verifParam("vpdim", 2))
 	cs, pts := verifC20VPPoints(n, dim, nil)
-	t, err := New(cs, verifParam("vpeffort", 1), &verifC20VPSrc{})
+	t, err := New(cs, verifParam("vpeffort", 1), &verifC20VPSrc{max: n})
 	verifAssert(err == nil, "New succeeds for finite points")
 	verifAssert(t.Len() == n, "Len is the number of points")
 	seen := make([]int, n)
